@@ -182,8 +182,16 @@ func resText(err error) string {
 }
 
 // sendStale sends the reply made for ticket t of caller cs to `to` with `ref`; kind says why
-func (b *book) sendStale(s sender, cs *cstate, to gen.PID, ref gen.Ref, rep Rep, kind string, duringN int, count bool) {
-	err := s.SendResponse(to, ref, rep)
+// asErr selects the error flavour: SendResponseError with an error whose text carries the reply identity
+func (b *book) sendStale(s sender, cs *cstate, to gen.PID, ref gen.Ref, rep Rep, kind string, duringN int, count bool, asErr bool) {
+	var err error
+	if asErr {
+		kind += "-err"
+		b.produced.Store(rep, kind)
+		err = s.SendResponseError(to, ref, tagErr(rep))
+	} else {
+		err = s.SendResponse(to, ref, rep)
+	}
 	if to.ID%255 == 0 {
 		// receivers whose id is a multiple of 255 get "no order" frames across nodes: do not base the
 		// non-triviality measure (stale reply precedes the own reply) on them
@@ -240,7 +248,7 @@ func (b *book) serve(s sender, callee int, from gen.PID, ref gen.Ref, r Req, can
 		ts := cs.staleTickets(r.N)
 		for i := 0; i < r.Flush && len(ts) > 0; i++ {
 			t := ts[(len(ts)-1-i%len(ts)+len(ts))%len(ts)] // newest first, wrapping
-			b.sendStale(s, cs, t.from, t.ref, b.mkRep(r.Caller, t.n, callee, "stale"), "stale", r.N, true)
+			b.sendStale(s, cs, t.from, t.ref, b.mkRep(r.Caller, t.n, callee, "stale"), "stale", r.N, true, (r.N+i)%2 == 1)
 			if i >= 7 {
 				// workload shaping only: give the waiting caller a chance to drain its 10-slot channel
 				runtime.Gosched()
@@ -250,11 +258,11 @@ func (b *book) serve(s sender, callee int, from gen.PID, ref gen.Ref, r Req, can
 	if r.Foreign && len(b.callers) > 1 {
 		buddy := b.callers[(r.Caller+1)%len(b.callers)]
 		// the reply made for this request, sent to another process (which may be waiting for its own reply)
-		b.sendStale(s, cs, buddy.pid, ref, b.mkRep(r.Caller, r.N, callee, "to-other-process"), "to-other-process", r.N, false)
+		b.sendStale(s, cs, buddy.pid, ref, b.mkRep(r.Caller, r.N, callee, "to-other-process"), "to-other-process", r.N, false, r.N%2 == 0)
 		// a reply made for the buddy's latest request, sent to this caller with the buddy's ref
 		if bt := buddy.staleTickets(-1); len(bt) > 0 {
 			t := bt[len(bt)-1]
-			b.sendStale(s, cs, from, t.ref, b.mkRep(buddy.id, t.n, callee, "foreign-ref"), "foreign-ref", r.N, true)
+			b.sendStale(s, cs, from, t.ref, b.mkRep(buddy.id, t.n, callee, "foreign-ref"), "foreign-ref", r.N, true, r.N%2 == 1)
 		}
 	}
 	cs.mu.Lock()
@@ -273,7 +281,7 @@ func (b *book) serve(s sender, callee int, from gen.PID, ref gen.Ref, r Req, can
 	case "dup":
 		cs.own(r.N, s.SendResponse(from, ref, b.mkRep(r.Caller, r.N, callee, "own")))
 		// second reply to the same request: behind the first in the FIFO response channel
-		b.sendStale(s, cs, from, ref, b.mkRep(r.Caller, r.N, callee, "dup"), "dup", -2, true)
+		b.sendStale(s, cs, from, ref, b.mkRep(r.Caller, r.N, callee, "dup"), "dup", -2, true, r.N%2 == 1)
 		return nil, nil
 	}
 	rep := b.mkRep(r.Caller, r.N, callee, "own")
@@ -293,7 +301,7 @@ func (b *book) spray(s sender, sp Spray) {
 	ts := cs.staleTickets(-1)
 	for i := 0; i < sp.K && len(ts) > 0; i++ {
 		t := ts[i%len(ts)]
-		b.sendStale(s, cs, t.from, t.ref, b.mkRep(sp.Caller, t.n, -1, "spray"), "spray", -1, true)
+		b.sendStale(s, cs, t.from, t.ref, b.mkRep(sp.Caller, t.n, -1, "spray"), "spray", -1, true, i%2 == 1)
 	}
 }
 
@@ -838,10 +846,14 @@ func runRound(rc roundCfg) {
 			check := func(r Rep, what string) {
 				if r.Caller != c || r.N != cl.N {
 					pk, _ := b.produced.Load(r)
+					pks, _ := pk.(string)
 					switch {
-					case pk == "foreign-ref" && b.calleeOnB[r.Callee] != (callerNodes[c] == nodeB):
+					case strings.HasPrefix(pks, "foreign-ref") && b.calleeOnB[r.Callee] != (callerNodes[c] == nodeB):
 						// the reply carried a ref minted by the replier's node and crossed the connection: see scenario X
 						setSig("foreign-node-ref-reply-accepted-across-nodes")
+					case what == "error":
+						// a tagged reply-error made for another request ended this one
+						setSig("late-error-reply-of-other-request-returned")
 					case r.Caller != c:
 						setSig("reply-for-other-process-returned")
 					case timedOut[r.N]:
@@ -889,9 +901,16 @@ func runRound(rc roundCfg) {
 							continue
 						}
 						if s.DuringN == cl.N && timedOut[s.TicketN] {
-							classes["late-reply-of-timed-out-request-while-waiting"] = true
+							if strings.HasSuffix(s.Kind, "-err") {
+								classes["late-error-reply-of-timed-out-request-while-waiting"] = true
+							} else {
+								classes["late-reply-of-timed-out-request-while-waiting"] = true
+							}
 						}
-						if s.DuringN == cl.N && s.Kind == "foreign-ref" {
+						if strings.HasSuffix(s.Kind, "-err") {
+							classes["stale-error-reply"] = true
+						}
+						if s.DuringN == cl.N && strings.HasPrefix(s.Kind, "foreign-ref") {
 							classes["foreign-ref"] = true
 						}
 					}
@@ -1027,7 +1046,7 @@ func runRound(rc roundCfg) {
 
 func main() {
 	hk.InstallHook()
-	hk.Rule("rounds: 64 concurrent caller processes x seeded scripts of sequential Calls to shared callees (kinds: pid, registered name incl. split handlers, meta alias, remote pid/name/alias across a second node, in the remote and mixed rounds callers live on both nodes; reply by HandleCall return value, SendResponse from the callee later, from a third process, twice, as error, never (1 s timeout), callee terminating). Before its own reply the answering process re-sends replies made for EARLIER requests of the same caller (incl. the timed-out ones), replies with another caller's ref, and the reply to another process; a third process sprays 4..15 stale replies at the idle caller (channel capacity 10). One case = one caller script. Non-trivial iff at least one Call returned its own reply although >=1 stale reply, whose SendResponse returned nil, preceded that reply in the caller's FIFO response channel (sent by the answering process before the own reply, or accepted while the caller was idle, or a duplicate queued behind the previous own reply; for remote callees: sent without error on the same order-preserving connection). Distinct = round kind x target kinds used x observed classes (late reply of a timed-out request while waiting, >10 stale, foreign ref, dup, error reply, callee terminated, ignored at replier, third, async). Scenario W: ref-wrap history, non-trivial iff the later request really carried the same ref as the timed-out one. Scenario X: reply with a ref minted by another node, non-trivial iff the two outstanding requests really carried refs with equal ids minted by different nodes.")
+	hk.Rule("rounds: 64 concurrent caller processes x seeded scripts of sequential Calls to shared callees (kinds: pid, registered name incl. split handlers, meta alias, remote pid/name/alias across a second node, in the remote and mixed rounds callers live on both nodes; reply by HandleCall return value, SendResponse from the callee later, from a third process, twice, as error, never (1 s timeout), callee terminating). Before its own reply the answering process re-sends replies made for EARLIER requests of the same caller (incl. the timed-out ones), replies with another caller's ref, and the reply to another process, each alternately as value (SendResponse) and as tagged error (SendResponseError); a third process sprays 4..15 stale replies at the idle caller (channel capacity 10). One case = one caller script. Non-trivial iff at least one Call returned its own reply although >=1 stale reply, whose SendResponse returned nil, preceded that reply in the caller's FIFO response channel (sent by the answering process before the own reply, or accepted while the caller was idle, or a duplicate queued behind the previous own reply; for remote callees: sent without error on the same order-preserving connection). Distinct = round kind x target kinds used x observed classes (late reply of a timed-out request while waiting, >10 stale, foreign ref, dup, error reply, callee terminated, ignored at replier, third, async). Scenario W: ref-wrap history, non-trivial iff the later request really carried the same ref as the timed-out one. Scenario X: reply with a ref minted by another node, non-trivial iff the two outstanding requests really carried refs with equal ids minted by different nodes.")
 	hk.Assume("the harness callees are the only repliers; reply identity (caller,n,callee,no) is carried in the payload")
 	hk.Assume("a caller process issues its Calls sequentially (a process can have one outstanding Call), so every ticket of an earlier request is stale by construction")
 	for _, v := range []any{Req{}, Rep{}, Fwd{}, Spray{}} {
